@@ -427,14 +427,14 @@ func (t *Token) Clone() *Token {
 		id := *t.RootKeyID
 		c.RootKeyID = &id
 	}
-	c.Authority = t.Authority.clone()
+	c.Authority = t.Authority.Clone()
 	for _, s := range t.Blocks {
-		c.Blocks = append(c.Blocks, s.clone())
+		c.Blocks = append(c.Blocks, s.Clone())
 	}
 	return c
 }
 
-func (s Signed) clone() Signed {
+func (s Signed) Clone() Signed {
 	return Signed{Block: append([]byte{}, s.Block...), HasAlg: s.HasAlg, Alg: s.Alg, HasKey: s.HasKey, Key: append([]byte{}, s.Key...), Sig: append([]byte{}, s.Sig...), Extra: append([]byte{}, s.Extra...)}
 }
 
